@@ -6,3 +6,4 @@ from . import strings        # noqa: F401
 from . import lookup         # noqa: F401
 from . import index          # noqa: F401
 from . import index2         # noqa: F401
+from . import cdl            # noqa: F401
